@@ -1,12 +1,15 @@
 #!/bin/bash
-# usage: tools/try_seed.sh <seed_dir> <prop> [more props...]: apply the seeded change to /repo, run the quick checks, undo.
+# usage: tools/try_seed.sh <seed_dir> <prop> [more props...]
+#   applies the seeded change to /repo (or, with MUT=1, to the scratch worktree /tmp/mut used through VF_REPO so that
+#   other runs against /repo are not disturbed), runs the quick checks, undoes the change.
 d=$(realpath $1); shift
 cd /verif
-git -C /repo apply $d/patch.diff || exit 2
+if [ -n "$MUT" ]; then repo=/tmp/mut; export VF_REPO=/tmp/mut; else repo=/repo; fi
+git -C $repo apply $d/patch.diff || exit 2
 for p in "$@"; do
   out=$(./check $p 2>&1); rc=$?
   echo "== $p rc=$rc"; echo "$out" | grep -v "^KNOWN" | tail -4
   echo "$out" > $d/check_$p.log
 done
-git -C /repo checkout -- .
-git -C /repo status --short | head -3
+git -C $repo checkout -- .
+git -C $repo status --short | head -3
